@@ -43,8 +43,12 @@ Definition paint_chr (cs : Z) (v : vattr) (P : list cell) (ch : chr) : list cell
   if snd ch =? 0 then combine_last P (fst ch) else P ++ char_cells (fst ch) (snd ch) cs v.
 Definition paint_text (P : list cell) (cs : Z) (v : vattr) (text : list chr) : list cell :=
   fold_left (paint_chr cs v) text P.
+(* what draw_screen sends for the text of a run: C0 control characters are dropped under UTF-8 and become '?'
+   otherwise; a run in the IBMPC charset "U" is sent as it is *)
+Definition out_text (c : cfg) (cs : Z) (text : list chr) : list chr :=
+  if cs =? 2 then text else trans_text (g_utf8 c) text.
 Definition run_cells (c : cfg) (r : crun) : list cell :=
-  let '(a, cs, text) := r in paint_text [] cs (attr_vis c a) text.
+  let '(a, cs, text) := r in paint_text [] cs (attr_vis c a) (out_text c cs text).
 (* every run of the canvases considered starts with a character that takes a column (run_ok below), so
    no combining character reaches into the run before: the row is the concatenation of its runs *)
 Definition row_cells (c : cfg) (row : crow) : list cell := flat_map (run_cells c) row.
@@ -53,7 +57,7 @@ Definition row_cells (c : cfg) (row : crow) : list cell := flat_map (run_cells c
    rows the theorems speak about) *)
 Definition row_cells_threaded (c : cfg) (row : crow) : list cell :=
   fold_left (fun P (r : crun) => let '(a, cs, text) := r in
-               paint_text P cs (attr_vis c a) (if cs =? 2 then text else trans_text (g_utf8 c) text)) row [].
+               paint_text P cs (attr_vis c a) (out_text c cs text)) row [].
 
 (* ---------- visual equality of an expected cell e and a terminal cell g ---------- *)
 Definition vis_eq (e g : cell) : Prop :=
@@ -83,18 +87,20 @@ Definition Paints (c : cfg) (t : term) (content : list crow) (cursor : option (Z
   grid_shows c content (t_grid t) /\ cursor_shown t cursor /\ t_scrolled t = false.
 
 (* ---------- the canvases the theorems speak about ---------- *)
-(* printable characters of width 1 (or 0 - combining - or 2 under UTF-8); no C0 control characters;
-   the space is one column wide *)
+(* characters of width 1 (or 0 - combining - or 2 under UTF-8); the space is one column wide; a C0 control
+   character takes no column under UTF-8 (str_util measures it so) and one column otherwise *)
 Definition chr_ok (utf8 : bool) (ch : chr) : Prop :=
-  32 <= fst ch /\ (snd ch = 1 \/ (utf8 = true /\ (snd ch = 0 \/ snd ch = 2))) /\ (fst ch = 32 -> snd ch = 1).
+  0 <= fst ch /\ (snd ch = 1 \/ (utf8 = true /\ (snd ch = 0 \/ snd ch = 2))) /\ (fst ch = 32 -> snd ch = 1) /\
+  (fst ch < 32 -> utf8 = true -> snd ch = 0).
 (* a run is non-empty and starts with a character that takes a column; no charset flags under UTF-8;
-   None, "0" (DEC special graphics) or "U" (IBMPC) otherwise *)
+   None, "0" (DEC special graphics) or "U" (IBMPC, sent untranslated: no control characters) otherwise *)
 Definition starts_with_base (text : list chr) : Prop :=
   match text with ch :: _ => snd ch <> 0 | [] => True end.
 Definition run_ok (c : cfg) (r : crun) : Prop :=
   let '(a, cs, text) := r in
   text <> [] /\ starts_with_base text /\ Forall (chr_ok (g_utf8 c)) text /\
-  (if g_utf8 c then cs = 0 else cs = 0 \/ cs = 1 \/ cs = 2).
+  (if g_utf8 c then cs = 0 else cs = 0 \/ cs = 1 \/ cs = 2) /\
+  (cs = 2 -> Forall (fun ch : chr => 32 <= fst ch) text).
 Definition row_width (row : crow) : Z := fold_right (fun r acc => calc_width (snd r) + acc) 0 row.
 Definition row_ok (c : cfg) (cols : Z) (row : crow) : Prop :=
   Forall (run_ok c) row /\ row_width row = cols.
